@@ -631,7 +631,11 @@ fn run(ctx: &mut Ctx) {
     for kind in PUMP_KINDS {
         let expression_shaped = kind.starts_with("nested-parens") || (kind.starts_with("long-") && !matches!(kind, "long-account-name" | "long-payee" | "long-commodity")) || kind == "unary-minus-chain" || kind.starts_with("run-of-minus");
         let deep: &[usize] = ctx.tier.pick(&[1usize, 10, 100, 1000, 10000, 100000][..], &[1usize, 10, 100, 1000, 10000, 100000, 1000000][..]);
-        for &n in if expression_shaped { deep } else { sizes } {
+        // whole-file constructs also at 10^5 in the quick tier (0.2 s on the unchanged tree): work that grows with the SQUARE of the
+        // number of entries, lines or postings stays invisible at 10^4
+        let linear_scale = matches!(kind, "many-transactions" | "many-postings" | "many-metadata-lines" | "many-blank-lines" | "many-comment-lines" | "many-accounts" | "many-aliases");
+        let whole_file: &[usize] = &[1usize, 10, 100, 1000, 10000, 100000];
+        for &n in if expression_shaped { deep } else if linear_scale { whole_file } else { sizes } {
             if !ctx.next_is_mine() {
                 ctx.skip_cases(1);
                 continue;
